@@ -51,7 +51,14 @@ func (f *UnwindProtect) Call(s *slip.Scope, args slip.List, depth int) (result s
 	d2 := depth + 1
 	defer func() {
 		for i := 1; i < len(args); i++ {
-			_ = slip.EvalArg(s, args, i, d2)
+			if tr := slip.EvalArg(s, args, i, d2); isTransfer(tr) {
+				// A return-from, return or go in a cleanup form leaves the
+				// unwind-protect. It replaces the result of the protected
+				// form and whatever was on its way out of it.
+				_ = recover()
+				result = tr
+				return
+			}
 		}
 	}()
 	return slip.EvalArg(s, args, 0, d2)
